@@ -202,12 +202,13 @@ def run(tier: str) -> Run:
         viol = dict(zip(REQUIREMENTS, flags, strict=True))
         if viol['peak_too_wide'] and viol['peak_too_narrow']:
             continue
-        for edge_side in (('left', 'right', 'last point') if viol['peak_near_edge'] else ('left',)):
+        for edge_side in (('left', 'right', 'last point', 'outside left', 'outside right') if viol['peak_near_edge'] else ('left',)):
             for with_bkg_stats in ((True,) if viol['background_is_better'] else (True, False)):
                 w = World(repo)
                 # a non-uniform grid: fine below x = 2, coarse above; spacing around x = 6 is 2, the average spacing 1.25
                 data = w.data(9, variances=False, grid=(0, F(1, 2), 1, F(3, 2), 2, 4, 6, 8, 10))
-                loc_val = {'left': F(1, 4), 'right': F(19, 2), 'last point': F(10)}[edge_side] if viol['peak_near_edge'] else F(6)
+                # (a fitted location outside the window, by more than two steps, is closer to the edge than any point inside)
+                loc_val = {'left': F(1, 4), 'right': F(19, 2), 'last point': F(10), 'outside left': F(-3), 'outside right': F(14)}[edge_side] if viol['peak_near_edge'] else F(6)
                 popt = {'peak_loc': w.scalar('loc', ANG, loc_val), 'peak_amplitude': w.scalar('amp', CNT, -1 if viol['peak_points_down'] else 5),
                         'bkg_a0': w.scalar('a0', CNT, 1)}
                 peak = ModelStub(w, 'peak', ['peak_amplitude', 'peak_loc'])
